@@ -293,7 +293,7 @@ def end_to_end(ctx: Ctx):
     sci_a = bytes([2, 0x1F]) + le16(500) + struct.pack("<f", 1.0) + bytes.fromhex("40000001") + struct.pack(">e", 1.0) + bytes([1, 0])
     sci_b = bytes([0, 0x20]) + le16(-3) + struct.pack("<f", -0.5) + bytes.fromhex("a0000002") + struct.pack(">e", -2.0) + bytes([255, 7])
     sci_c = bytes([1, 0x10]) + le16(1) + struct.pack("<f", 2.0) + bytes.fromhex("7fffff7f") + struct.pack(">e", 0.0) + bytes([0, 1])
-    sci_hi = bytes([7, 0xA5]) + le16(2) + struct.pack("<f", 1.0) + bytes.fromhex("40000001") + struct.pack(">e", 1.0) + bytes([255, 2]) + bytes([0x60])
+    sci_hi = bytes([7, 0xA5]) + le16(2) + struct.pack("<f", 1.0) + bytes.fromhex("40000001") + struct.pack(">e", 1.0) + bytes([255, 5]) + bytes([0x60])
     txt_bits = (f"{2:08b}" + f"{3:04b}" + "0000" + f"{2:08b}" + "".join(f"{x:08b}" for x in bytes.fromhex("feff004800580000")) +
                 "".join(f"{x:08b}" for x in b"\x10OK") + "".join(f"{x:08b}" for x in b"ab") + "1011001110" +
                 "".join(f"{x:08b}" for x in b"\x01\x02\x03") + "".join(f"{x:08b}" for x in b"\xaa\x55") + f"{1000:032b}" +
